@@ -557,3 +557,111 @@ def run_transport_connect(given, host_key, with_password=True):
                 pass
             if t.ident is not None:
                 t.join(5)
+
+
+# ---------------------------------------------------------------------------------------------
+# adversarial near-collisions of a known RSA host key
+# ---------------------------------------------------------------------------------------------
+def _probable_prime(n, rng, rounds=12):
+    if n < 2:
+        return False
+    for sp in (2, 3, 5, 7, 11, 13, 17, 19, 23, 29, 31, 37, 41, 43, 47):
+        if n % sp == 0:
+            return n == sp
+    d, s = n - 1, 0
+    while d % 2 == 0:
+        d //= 2
+        s += 1
+    for _ in range(rounds):
+        a = rng.randrange(2, n - 1)
+        x = pow(a, d, n)
+        if x in (1, n - 1):
+            continue
+        for _ in range(s - 1):
+            x = pow(x, 2, n)
+            if x == n - 1:
+                break
+        else:
+            return False
+    return True
+
+
+def near_collisions(known, bits=1024):
+    """RSA keys that are NOT `known` but close to it in ways a sloppy comparison could confuse, each with a usable
+    private half (so the key exchange completes with a valid signature):
+      hash-colliding : same e, modulus congruent to known's modulo sys.hash_info.modulus (CPython int hashing)
+      other-exponent : the same modulus with another public exponent (equal in all but one field)
+    """
+    import math
+    import random
+    import sys
+
+    from cryptography.hazmat.primitives.asymmetric import rsa
+    from paramiko import RSAKey
+
+    if "near" in _cache:
+        return _cache["near"]
+    rng = random.Random(0xC17)
+    M = sys.hash_info.modulus
+    pub = known.key.public_key().public_numbers() if hasattr(known.key, "public_key") else known.key.public_numbers()
+    n, e = pub.n, pub.e
+    out = {}
+    half = bits // 2
+    while "hash-colliding" not in out:
+        p = rsa.generate_private_key(65537, bits).private_numbers().p   # any prime will do for p
+        if p % M == 0 or math.gcd(e, p - 1) != 1:
+            continue
+        r = (n % M) * pow(p, -1, M) % M
+        k = rng.getrandbits(half - 61) | (1 << (half - 62))
+        q = r + k * M
+        if q % 2 == 0:
+            q += M
+        for _ in range(40000):
+            if q != p and math.gcd(e, q - 1) == 1 and _probable_prime(q, rng):
+                break
+            q += 2 * M
+        else:
+            continue
+        n2 = p * q
+        if n2 % M != n % M or n2 == n:
+            continue
+        if p < q:
+            p, q = q, p
+        d = pow(e, -1, (p - 1) * (q - 1))
+        priv = rsa.RSAPrivateNumbers(p=p, q=q, d=d, dmp1=d % (p - 1), dmq1=d % (q - 1), iqmp=pow(q, -1, p),
+                                     public_numbers=rsa.RSAPublicNumbers(e, n2)).private_key()
+        out["hash-colliding"] = RSAKey(key=priv)
+    # same modulus, another exponent: possible here because the harness owns the known key's private half
+    pn = known.key.private_numbers()
+    p, q = pn.p, pn.q
+    phi = (p - 1) * (q - 1)
+    for e2 in (3, 5, 17, 257, 65539, 65543):
+        if e2 != e and math.gcd(e2, phi) == 1:
+            try:
+                d2 = pow(e2, -1, phi)
+            except ValueError:
+                continue
+            priv = rsa.RSAPrivateNumbers(p=p, q=q, d=d2, dmp1=d2 % (p - 1), dmq1=d2 % (q - 1), iqmp=pn.iqmp,
+                                         public_numbers=rsa.RSAPublicNumbers(e2, n)).private_key()
+            out["other-exponent"] = RSAKey(key=priv)
+            break
+    _cache["near"] = out
+    return out
+
+
+def pkey_eq_fact():
+    """source-level fact (AST): PKey.__eq__ compares the `_fields` tuples and does not go through hash()"""
+    import ast
+    import inspect
+    import textwrap
+
+    from paramiko.pkey import PKey
+
+    src = textwrap.dedent(inspect.getsource(PKey.__eq__))
+    tree = ast.parse(src)
+    has_fields = any(isinstance(n, ast.Compare) and isinstance(n.ops[0], ast.Eq)
+                     and isinstance(n.left, ast.Attribute) and n.left.attr == "_fields"
+                     and isinstance(n.comparators[0], ast.Attribute) and n.comparators[0].attr == "_fields"
+                     for n in ast.walk(tree))
+    uses_hash = any(isinstance(n, ast.Call) and getattr(n.func, "id", None) == "hash" for n in ast.walk(tree))
+    return has_fields and not uses_hash, src.strip()
